@@ -487,3 +487,46 @@ func (r *verifFixedReader) Read(b []byte) (int, error) {
 
 var verifGzipMember1 = []byte{0x1f, 0x8b, 0x08, 0x00, 0x00, 0x00, 0x00, 0x00, 0x02, 0x03, 0xab, 0x56, 0x4a, 0x54, 0xb2, 0x52, 0x32, 0x54, 0xaa, 0xe5, 0xaa, 0x56, 0x4a, 0x02, 0xb2, 0x8c, 0xc0, 0xac, 0x64, 0x25, 0x2b, 0x00, 0x38, 0xf6, 0xa8, 0x9c, 0x19, 0x00, 0x00, 0x00}
 var verifGzipMember2 = []byte{0x1f, 0x8b, 0x08, 0x00, 0x00, 0x00, 0x00, 0x00, 0x02, 0x03, 0x53, 0x32, 0x56, 0xaa, 0xe5, 0xaa, 0x56, 0x4a, 0x51, 0xb2, 0x52, 0x32, 0x01, 0xb2, 0x00, 0x6b, 0xd2, 0x46, 0x25, 0x0f, 0x00, 0x00, 0x00}
+
+// replaces (*metadata.MetaTemplater).Render: the templates themselves (text/template) are outside the encoding;
+// what the plugin does to the request while it collects the template data is not
+func verifStubRender(m *metadata.MetaTemplater, data metadata.Data) (metadata.MetaData, error) {
+	return metadata.MetaData{"k": "v"}, nil
+}
+
+// C11.H2b: a request served with the meta option configured (the plugin collects login, address, query
+// parameters of the request for the templates first): every line of the body is still handed over,
+// whatever the content type of the request.
+func VerifH_C11_metaRequest() {
+	ctl := &verifCtl{}
+	p := verifNewPlugin(ctl, 2, 1)
+	p.config.Meta = map[string]string{"k": "{{ .params }}"}
+	p.metaTemplater = &metadata.MetaTemplater{}
+	body := []byte("ab\ncd\n")
+	rd := &verifReader{body: body, failAt: -1}
+	w := &verifRW{h: nethttp.Header{}, inAtBody: -1, ctl: ctl}
+	req := &nethttp.Request{Method: "POST", Header: nethttp.Header{}, Body: io.NopCloser(rd), RemoteAddr: "10.0.0.1:4242", ContentLength: int64(len(body))}
+	ct := []string{"", "application/json", "application/x-ndjson", "application/x-www-form-urlencoded", "text/plain"}[vf.Choose("content-type", 5)]
+	if ct != "" {
+		req.Header.Set("Content-Type", ct)
+	}
+	req.URL = &url.URL{Path: "/", RawQuery: "env=prod"}
+	req.RequestURI = "/?env=prod"
+	if vf.Choose("elasticsearch-mode", 2) == 1 {
+		p.config.EmulateMode_ = EmulateModeElasticSearch
+		req.URL.Path = "/_bulk"
+		req.RequestURI = "/_bulk?env=prod"
+	}
+	p.ServeHTTP(w, req)
+	if vf.Param("twin", 0) == 1 {
+		vf.Assert(len(ctl.calls) != 2, "every-line-handed-over-with-meta-configured")
+		return
+	}
+	vf.Assert(w.status == 200, "status")
+	vf.Assert(len(ctl.calls) == 2, "every-line-handed-over-with-meta-configured")
+	if len(ctl.calls) == 2 {
+		vf.Assert(string(ctl.calls[0].data) == "ab" && string(ctl.calls[1].data) == "cd", "lines-are-the-body-lines")
+	}
+	vf.Assert(w.inAtBody == 2, "ok-only-after-every-line")
+	vf.Reach("served-with-meta")
+}
